@@ -304,7 +304,7 @@ pub fn handles<P: PType>(st: &MapSt<P>, cx: &Cx) -> (Vec<Viol>, u64) {
         if st.map.view_at(mkp::<P>(k)).is_none() {
             continue;
         }
-        let is_node = st.walk.nodes.iter().any(|nd| nd.key == nk);
+        let is_node = st.walk().nodes.iter().any(|nd| nd.key == nk);
         for s in &view_seqs {
             for c in 0..VIEW_C.len() {
                 let mut map = st.map.clone();
@@ -500,7 +500,7 @@ pub fn faults<P: PType>(st: &MapSt<P>, cx: &Cx) -> (Vec<Viol>, u64) {
         }
     }
     // ---- a panicking Default impl (or_default / VacantEntry::default), on the canonical rebuild
-    if crate::arena::is_canonical(&st.walk) {
+    if crate::arena::is_canonical(st.walk()) {
         let pv: PrefixMap<P, Pv> = st.map.iter().map(|(p, v)| (p.clone(), Pv(*v))).collect();
         for &k in &cx.uni.keys {
             for which in 0..2 {
